@@ -896,7 +896,7 @@ impl<'a> Session<'a> {
                     format!("map {} | {} | {}", ms, vs, ds)
                 }
             };
-            self.out.emit(&line, &ans.replace("  ", " "));
+            self.out.emit(&line, &ans);
         }
     }
     fn check_replay(
@@ -1064,7 +1064,7 @@ fn random_history(rng: &mut Rng, out: &mut Out, stats: &mut Stats, hist: usize) 
                 }
             }
             // names: mostly fresh, sometimes reuse the name of a removed datum (legal)
-            let name = if !reuse.is_empty() && rng.chance(1, 2) { reuse.remove(0) } else if !stale.is_empty() && rng.chance(1, 10) { format!("f{}", rng.below(name_ctr + 1)) } else { name_ctr += 1; format!("f{}", name_ctr) };
+            let name = if !reuse.is_empty() && rng.chance(1, 2) { reuse.remove(0) } else if !stale.is_empty() && rng.chance(1, 10) { format!("f{}", rng.below(name_ctr + 1)) } else { name_ctr += 1; match rng.below(14) { 0 => format!("f{}_mut", name_ctr), 1 => format!("_f{}", name_ctr), 2 => format!("get_f{}", name_ctr), 3 => format!("f{}_", name_ctr), _ => format!("f{}", name_ctr) } };
             let r = gen_add(rng, table, native, name.clone(), zst_heavy);
             if r.size == 0 { has_zst = true; }
             if let Some(id) = s.add(&r) {
